@@ -1900,6 +1900,8 @@ class Executor:
         v = self.eval(e.value, frame) if e.value is not None else VNone()
         if self.st.out is None:
             raise Unsupported('yield in a function whose contract declares no `yields` sort')
+        if isinstance(v, VNone):
+            v = VInt(0)         # a bare `yield` (context-manager body): only the event matters
         self.st.out = self.st.out.append(v)
         hook = getattr(self.c, 'on_yield_value', None)
         if hook is not None:
